@@ -31,8 +31,23 @@ def atom(t):
     return ('a', t)
 
 
+_NEG, _CONJ, _DISJ = {}, {}, {}
+
+
 def neg(f):
     """negation in negation normal form (De Morgan), so that formulas are and/or trees over literals"""
+    if f is True or f is False:
+        return not f
+    r = _NEG.get(f)
+    if r is None:
+        r = _neg(f)
+        _NEG[f] = r
+        if isinstance(r, tuple):
+            _NEG.setdefault(r, f)
+    return r
+
+
+def _neg(f):
     if f is True:
         return False
     if f is False:
@@ -104,6 +119,18 @@ def _mk(op, items):
 
 
 def conj(*fs):
+    if len(fs) == 1:
+        return fs[0]
+    r = _CONJ.get(fs)
+    if r is None:
+        r = _conj(fs)
+        if len(_CONJ) > 400000:
+            _CONJ.clear()
+        _CONJ[fs] = r
+    return r
+
+
+def _conj(fs):
     out = []
     for f in _flat('&', fs):
         if f is True:
@@ -145,6 +172,18 @@ def conj(*fs):
 
 
 def disj(*fs):
+    if len(fs) == 1:
+        return fs[0]
+    r = _DISJ.get(fs)
+    if r is None:
+        r = _disj(fs)
+        if len(_DISJ) > 400000:
+            _DISJ.clear()
+        _DISJ[fs] = r
+    return r
+
+
+def _disj(fs):
     out = []
     for f in _flat('|', fs):
         if f is False:
@@ -420,6 +459,7 @@ class Summary(object):
         self.depth = depth
         self.inline_module_funcs = inline_module_funcs
         self.effects = []
+        self.carried = []
         self.tmp = 0
         self.inlined = set()
         self.notes = []
@@ -780,6 +820,9 @@ class Summary(object):
 
     def assign_name(self, name, alts, env, pc):
         alts = _split_ifexp(self, alts, env, pc)
+        if any(name in c for c in self.carried):
+            for g, v in alts:
+                self.emit('local', name, _unparse(v), conj(pc, g), v, self._cur_frame, vnode=v)
         old = env.get(name)
         new = [(conj(pc, g), v) for g, v in alts]
         if pc is not True and old is not None and not isinstance(old, ListVal):
@@ -968,13 +1011,20 @@ class Summary(object):
                 if isinstance(x, ast.Name) and isinstance(x.ctx, ast.Store):
                     assigned.add(x.id)
         # loop-carried locals: value from an earlier iteration is unknown
-        for nm in assigned:
-            if nm in env and not isinstance(env[nm], ListVal) and any(isinstance(x, ast.Name) and x.id == nm and isinstance(x.ctx, ast.Load) for n in st.body for x in ast.walk(n)):
-                env[nm] = list(env[nm]) + []      # first-iteration view; see DESIGN (loops are summarised, not unrolled)
+        targets = set()
         if is_for:
             for t in ast.walk(st.target):
                 if isinstance(t, ast.Name):
+                    targets.add(t.id)
                     env.pop(t.id, None)
+        carried = set()
+        for nm in assigned - targets:
+            if nm in env and not isinstance(env[nm], ListVal) and _read_before_write(st.body, nm):
+                # loop-carried local: inside the body it may hold the value an earlier iteration left (kept opaque under its own name)
+                c = atom('@carried:%s#%d' % (nm, self.tmp))
+                env[nm] = [(conj(g, neg(c)), v) for g, v in env[nm]] + [(c, ast.Name(id=nm, ctx=ast.Load()))]
+                carried.add(nm)
+        self.carried.append(carried)
         self.loops.append(it_txt)
         fr.loopctl.append([])
         n0 = len(fr.exits)
@@ -985,6 +1035,7 @@ class Summary(object):
         self.block(st.body, env, body_pc, fr)
         fr.loopctl.pop()
         self.loops.pop()
+        self.carried.pop()
         gone = [c for c, k in fr.exits[n0:]]
         after = conj(pc, neg(disj(*gone))) if gone else pc
         if st.orelse:
@@ -1047,6 +1098,19 @@ class Summary(object):
 
     def cond_of(self, effs):
         return disj(*[e.cond for e in effs])
+
+
+def _read_before_write(stmts, name):
+    """may `name` be read in the block before it is (re)assigned on that path?  (conservative: any load that is not
+    preceded, in the same straight-line block, by an unconditional store)"""
+    for st in stmts:
+        if isinstance(st, ast.Assign) and len(st.targets) == 1 and isinstance(st.targets[0], ast.Name) and st.targets[0].id == name:
+            if any(isinstance(x, ast.Name) and x.id == name and isinstance(x.ctx, ast.Load) for x in ast.walk(st.value)):
+                return True
+            return False
+        if any(isinstance(x, ast.Name) and x.id == name and isinstance(x.ctx, ast.Load) for x in ast.walk(st)):
+            return True
+    return False
 
 
 def _on_empty_literal(n):
@@ -1259,3 +1323,41 @@ def allowed(summ, eff, spec):
 def compatible(e1, e2):
     """can both effects happen in the same run (conjunction satisfiable)?"""
     return sat(conj(e1.cond, e2.cond)) is not False
+
+
+def returns_under(summ, decide):
+    """possible return values of the summarised function when atoms are decided by `decide(atom text) -> bool|None`:
+    list of (value text, node, definite?)"""
+    out = []
+    names = []
+    for g, n in summ.returns:
+        atoms(g, names)
+    if summ.falls is not False:
+        atoms(summ.falls, names)
+    val = {}
+    for a in names:
+        v = decide(a)
+        if v is not None:
+            val[a] = v
+    for g, n in summ.returns:
+        v = ev3(g, val)
+        if v is not False:
+            out.append((_unparse(n), n, v is True))
+    if summ.falls is not False:
+        v = ev3(summ.falls, val)
+        if v is not False:
+            out.append(('None', None, v is True))
+    return out
+
+
+def decide_by(spec, default=None):
+    spec = [(_rx(p), v) for p, v in spec]
+
+    def f(a):
+        for p, v in spec:
+            if p.search(a):
+                if v in ('P', 'A'):
+                    return _presence(a, v == 'P')
+                return v
+        return default
+    return f
